@@ -20,7 +20,11 @@ func runC13(c *Ctx) {
 		"(runtime.MemStats.TotalAlloc around open + first lookup; lengths tried in ascending order, and lengths in [2^20, 2^48) no longer once a reader was seen to allocate a claimed length), original answer or corruption; " +
 		"short reads (footer offsets beyond the end, file cut inside the metaindex / index block, data region cut with the footer moved along) through a buffer pool that served a table with the same " +
 		"layout and other values before — answers independent of the pool's history, never the other table's data; all of these files also go to the model; " +
-		"Go-only oracles: round trip, backward iteration, monotone offsets, cached = uncached. Non-trivial = multi-block or filtered table; distinct by case seed."
+		"Go-only oracles: round trip, backward iteration, monotone offsets, cached = uncached; the empty table under seven ranges (nil, empty, Start only, Limit only, both, inverted) and eleven movements: nothing yielded, no error. Non-trivial = multi-block or filtered table; distinct by case seed."
+	c13EmptyTable(c)
+	if len(c.Res.Violations) > 0 {
+		return
+	}
 	sz := wpc13.DefaultSizes()
 	sz.Tables = c.Scale(200, 4000)
 	if c.Thorough {
